@@ -53,8 +53,18 @@ static int iof_due(int kind, int fd) {
     if(iof_kind2 == kind && c == iof_k2) { iof_hit |= 2; iof_cur_fault = iof_fault2; return 1; }
     return 0;
 }
+/* Fault 5 on a read is a premature END OF FILE: from that call on the descriptor behaves as if the file ended at the position the
+ * call was made at (a read that returns 0 and is followed by successful reads further on cannot happen to a real file). */
+static int iof_eof_fd = -1; static off_t iof_eof_pos = 0;
+void iof_reset_eof(void) { iof_eof_fd = -1; }
 ssize_t __wrap_read(int fd, void *buf, size_t n) {
+    if(iof_eof_fd == fd && iof_armed) {
+        off_t at = __real_lseek(fd, 0, SEEK_CUR);
+        if(at >= iof_eof_pos) { iof_count[0]++; return 0; }
+        if((off_t)n > iof_eof_pos - at) n = (size_t)(iof_eof_pos - at);
+    }
     if(iof_due(0, fd)) {
+        if(iof_cur_fault == 5) { iof_eof_fd = fd; iof_eof_pos = __real_lseek(fd, 0, SEEK_CUR); return 0; }
         if(iof_cur_fault <= 2) { errno = iof_errno(); return -1; }
         size_t m = iof_cur_fault == 3 ? n / 2 : iof_cur_fault == 4 ? (n ? 1 : 0) : 0;
         if(m == 0) return 0;
